@@ -50,7 +50,9 @@ impl QueryBuilder for PostgresQueryBuilder {
                 } else {
                     (type_name.as_str(), "")
                 };
-                write!(sql, " AS {}{}{}{})", q.left(), ty, q.right(), sfx).unwrap();
+                write!(sql, " AS ").unwrap();
+                Alias::new(ty).prepare(sql.as_writer(), q);
+                write!(sql, "{sfx})").unwrap();
             }
             _ => QueryBuilder::prepare_simple_expr_common(self, simple_expr, sql),
         }
